@@ -275,12 +275,18 @@ func solveObl(ctx context.Context, vc *FuncVC, o *Obl, timeoutMs int, dir string
 	}
 	first := run(order[0], timeoutMs)
 	if agree || (first != "unsat" && first != "sat") {
+		// cross-checking a definitive answer gets a short budget (a solver that cannot confirm in 10 s is not asked
+		// to spend a minute on every one of thousands of obligations); an undecided one gets the full budget
+		t2 := timeoutMs
+		if (first == "unsat" || first == "sat") && t2 > 10000 {
+			t2 = 10000
+		}
 		var wg sync.WaitGroup
 		for _, sp := range order[1:] {
 			wg.Add(1)
 			go func(sp solverSpec) {
 				defer wg.Done()
-				run(sp, timeoutMs)
+				run(sp, t2)
 			}(sp)
 		}
 		wg.Wait()
